@@ -198,7 +198,12 @@ def handle (j : Json) : Except String Json := do
     return lv
   let wf := Sched.checkWF g (fun t => lvlArr.getD t 0)
   -- 3. replay
-  let ctx : Ctx := { P := P, graph := g, tasks := (gts.map (fun t => ({ id := ⟨t.kind, t.path⟩, succ := [], compl := [] } : TaskSpec))).toArray, n := P.nbThreads }
+  let parents : List (Nat × Nat) ← (match fieldOpt j "threads" with
+    | .null => pure []
+    | x => do (← x.getArr?).toList.mapM (fun e => do
+        let a ← e.getArr?
+        pure (← a[0]!.getNat?, ← a[1]!.getNat?)))
+  let ctx : Ctx := { parentOf := fun th => parents.lookup th, P := P, graph := g, tasks := (gts.map (fun t => ({ id := ⟨t.kind, t.path⟩, succ := [], compl := [] } : TaskSpec))).toArray, n := P.nbThreads }
   let mut st : G := G.init ctx
   let mut i := 0
   let mut reject : Option String := none
@@ -209,8 +214,10 @@ def handle (j : Json) : Except String Json := do
     i := i + 1
   -- 4. the report the writer model builds from the fired events, and the grammar verdicts
   let fired := st.fired.toList
+  -- the observation drops times (t = 0); the grammar wants real (non-zero) times: put 1 everywhere
+  let firedG := fired.map (RunAccept.retime 1)
   let rep : Json := match Writer.fold fired with
-    | .ok r => encReport { r with suites := Writer.view r }
+    | .ok r => encReport r
     | .error e => Json.mkObj [("writer_error", Json.str (toString (repr e)))]
   let results := (List.range k).map (fun (t : Nat) => Json.arr #[Json.num t,
       match st.sched.result t with
@@ -222,9 +229,9 @@ def handle (j : Json) : Except String Json := do
     ("final", Json.bool (Sched.finalB g st.sched)), ("running_left", Json.num st.running.length),
     ("session_started", Json.bool st.sessionStarted), ("session_ended", Json.bool st.sessionEnded),
     ("results", Json.arr results.toArray),
-    ("grammar_parallel", Json.bool (Grammar.run .parallel Grammar.init fired).isSome),
-    ("grammar_wellformed", Json.bool (match Grammar.run .parallel Grammar.init fired with | some gs => gs.phase == .ended | none => false)),
-    ("grammar_sequential", Json.bool (Grammar.run .seq Grammar.init fired).isSome),
+    ("grammar_parallel", Json.bool (Grammar.run .parallel Grammar.init firedG).isSome),
+    ("grammar_wellformed", Json.bool (match Grammar.run .parallel Grammar.init firedG with | some gs => gs.phase == .ended | none => false)),
+    ("grammar_sequential", Json.bool (Grammar.run .seq Grammar.init firedG).isSome),
     ("report", rep),
     ("any_failed", Json.bool st.defF.failed),
     ("pre_run", Json.arr (preRunFixtures P |>.map Json.str).toArray)])
